@@ -210,7 +210,7 @@ def build_raw(o, m):
     if o["halo"] == "value":
         dom["halo"] = 40.0
     if o["levels"] == "list":
-        dom["output_levels"] = [1, 3, 4]
+        dom["output_levels"] = [3, 1, 4]
     elif o["levels"] == "full":
         dom["full_output"] = True
     sol = {"closure": o["closure"], "precision": o["prec"], "footprint": bool(o["fp"]), "analytic": bool(o["an"]), "surface_flux_shape": o["shape"]}
@@ -275,7 +275,7 @@ def explicit_pipeline(cfg, raw, o, m, i, tower, supplied):
     else:
         q = ideal_source((dom["nx"], dom["ny"]), (dom["xmax"], dom["ymax"]), src_loc=(70.0, 30.0) if o["srcloc"] == "value" else None, shape=o["shape"])
     if o["levels"] == "list":
-        levels = [1, 3, 4]
+        levels = [3, 1, 4]
     elif o["levels"] == "full":
         levels = list(range(dom["nz"] + 1))
     else:
@@ -324,7 +324,7 @@ def check_call_records(chk, o, m, i, want, rec, cfg, tower, supplied, sc):
     # 4 solver
     _, a, k, _ = calls["steady_state_transport_solver"]
     z_out, p_out = prof_out
-    lv = {"output_levels": [1, 3, 4], "range(nz+1)": list(range(cfg.domain.nz + 1)), "nz": cfg.domain.nz}[want["solver"]["levels"]]
+    lv = {"output_levels": [3, 1, 4], "range(nz+1)": list(range(cfg.domain.nz + 1)), "nz": cfg.domain.nz}[want["solver"]["levels"]]
     exp = {
         "srf_flx": src_out, "z": z_out, "profiles": p_out, "domain": (cfg.domain.xmax, cfg.domain.ymax), "levels": lv,
         "modes": (6, 4) if o["modes"] == "explicit" else (512, 512), "meas_pt": (tower.x, tower.y),
